@@ -312,6 +312,60 @@ func c17CheckInert(c *core.Ctx, state string, recv reflect.Value, cs CallSpec, r
 	return true
 }
 
+// c17InitOverLive: Condition.Init's "purpose is to initialise" - whatever the variable held before. Afterwards the variable
+// holds exactly what Init gives a zero variable (nothing of the previous occupant: no keyword, option, identifier, level or
+// logger of its), also when the previous occupant was read-only; a handle copied beforehand still reads what it read.
+func c17InitOverLive(c *core.Ctx, r *core.Rng) {
+	cd := stackage.Cond("prev", stackage.Ge, "occupant")
+	var did []string
+	step := func(name string, f func()) {
+		if r.Bool() {
+			f()
+			did = append(did, name)
+		}
+	}
+	step("SetLogger(custom)", func() { cd.SetLogger(log.New(NullWriter{}, "prev ", 0)) })
+	step("SetLogLevel(error,user3)", func() { cd.SetLogLevel(stackage.LogLevel5, stackage.UserLogLevel3) })
+	step("SetID", func() { cd.SetID("prev-id") })
+	step("SetCategory", func() { cd.SetCategory("prev-cat") })
+	step("SetEncap", func() { cd.SetEncap(`"`) })
+	step("SetParen", func() { cd.SetParen(true) })
+	step("SetNoNesting", func() { cd.SetNoNesting(true) })
+	step("SetAuxiliary", func() { cd.SetAuxiliary(map[string]any{"p": 1}) })
+	step("SetValidityPolicy", func() { cd.SetValidityPolicy(func(...any) error { return nil }) })
+	step("SetErr", func() { cd.SetErr(errPolicyRejects) })
+	step("SetReadOnly", func() { cd.SetReadOnly(true) })
+	kept := cd
+	keptBefore, _ := Take(kept)
+	desc := map[string]any{"previous_occupant": did}
+	if p, msg, site := Guard(func() { cd.Init() }); p {
+		c.Violatef("panic:"+site+":Init-over-live", desc, "Init on a variable holding a live Condition panicked: %s", msg)
+		return
+	}
+	var ref stackage.Condition
+	ref.Init()
+	read := func(x stackage.Condition) string {
+		return fmt.Sprintf("id=%q cat=%q paren=%v encap=%v padded=%v cannest=%v nesting=%v ro=%v levels=%q logger=%p aux=%v err=%v kw=%q op=%v ex=%v text=%q valid=%v len=%d init=%v zero=%v",
+			x.ID(), x.Category(), x.IsParen(), x.IsEncap(), x.IsPadded(), x.CanNest(), x.IsNesting(), x.IsReadOnly(), x.LogLevels(), x.Logger(), x.Auxiliary(), x.Err(),
+			x.Keyword(), x.Operator(), x.Expression(), x.String(), x.Valid() == nil, x.Len(), x.IsInit(), x.IsZero())
+	}
+	if d := ""; read(cd) != read(ref) {
+		d = read(cd) + " <> " + read(ref)
+		c.Violatef("Init-over-live", desc, "after Init on a variable that held a configured Condition %v the variable differs from a freshly initialised one: %s (levels %q vs %q, read-only %v, keyword %q)", did, d, cd.LogLevels(), ref.LogLevels(), cd.IsReadOnly(), cd.Keyword())
+		return
+	}
+	cd.SetKeyword("fresh")
+	if cd.Keyword() != "fresh" {
+		c.Violatef("Init-over-live", desc, "the re-initialised Condition refuses SetKeyword (previous occupant: %v)", did)
+		return
+	}
+	if now, _ := Take(kept); Diff(keptBefore, now, DiffOpts{Raw: true}) != "" {
+		c.Violatef("Init-over-live:kept-handle", desc, "a copy of the handle taken before Init changed: %s", Diff(keptBefore, now, DiffOpts{Raw: true}))
+		return
+	}
+	c.Count("init-over-live-condition")
+}
+
 func c17Run(c *core.Ctx, idx int) {
 	enum, pkg, life, _ := c17Tier(c.Tier)
 	r := c.Rng
@@ -350,6 +404,8 @@ func c17Run(c *core.Ctx, idx int) {
 		}
 		c.Count("calls.package-function")
 		c.NontrivialStr("pkg|" + pc.desc)
+	case idx < enum+pkg+life && idx%25 == 12:
+		c17InitOverLive(c, r)
 	case idx < enum+pkg+life:
 		c17Lifecycle(c, r)
 	default:
